@@ -64,6 +64,7 @@ class Transport:
         self.world = world
         self.wid = wid
         self.buf = b''
+        self.raw = b''  # everything written, for a real client reading the other end
         self.closed = False
 
     def write(self, b):
@@ -71,6 +72,7 @@ class Transport:
             self.world.obs['write_after_close'] = self.world.obs.get('write_after_close', 0) + 1
             return
         self.buf += b
+        self.raw += b
         while len(self.buf) >= 4:
             n = struct.unpack('>I', self.buf[:4])[0]
             if len(self.buf) < 4 + n:
@@ -162,7 +164,7 @@ class World:
         if m.type == message.Type.task:
             self.msgseq += 1
             v = self.msg_view(m)
-            v.update(w=wid, msgid=self.msgseq, wreg=w['registered'], wrev=w['rev'], wconn=w['connected'], wholds=w['holds'], active=self.fsm.active)
+            v.update(w=wid, msgid=self.msgseq, wreg=w['registered'], wrev=w['rev'] or '', wconn=w['connected'], wholds=w['holds'], active=self.fsm.active)
             self.obs.setdefault('written', []).append(v)
             w['holds'] += 1
             self.inflight.append({'alg': v['alg'], 't': v['t'], 'run': v['run'], 'msgid': self.msgseq, 'w': wid, 'stale': False, 'timing': m.timing})
